@@ -627,6 +627,23 @@ def run_sel_case(ctx, case, raw_table):
                       f'select(flags={sel_to_py(sel)!r})')
     if v is None and has_unknown and not recs:
         v = f'select(flags={sel_to_py(sel)!r}) contains an unknown name but no warning was logged'
+    if v is None and ds.fmt == 'v4' and 'cam' in ds.names:
+        # the flags of this selection and of another one, fetched in ONE dask computation: each indexer still gives
+        # the raw byte AND the mask of the names selected when it was obtained
+        from katdal.lazy_indexer import DaskLazyIndexer
+        try:
+            first = ds.d.flags
+            ds.d.select(flags='cam')
+            second = ds.d.flags
+            with dask.config.set(scheduler='synchronous'):
+                joint = DaskLazyIndexer.get([first, second], np.s_[:, :, :])
+                alone = np.asarray(second[:])
+        except Exception as e:   # noqa: BLE001
+            return f'joint fetch of the flags of two selections raised {type(e).__name__}: {str(e)[:100]}', True
+        ctx.tag('two-flag-selections-one-graph')
+        if not np.array_equal(np.asarray(joint[0]), obs['flags']) or not np.array_equal(np.asarray(joint[1]), alone):
+            v = (f"flags selected with {sel_to_py(sel)!r} and with 'cam', fetched in one dask computation: one of them "
+                 f'carries the mask of the other selection')
     return v, mspec not in (255,)
 
 
